@@ -253,9 +253,18 @@ func c07Step(x *engine.Exec) []engine.Failure {
 		}
 	case world.KBlock:
 		ref.onEndBlock(prev.Time)
+	case world.KGovDelete:
+		if len(x.Prev.Snap().Unb) > 0 {
+			x.Cnt.Inc("asset.deleted_with_pending_unbondings")
+		}
 	case world.KSlash:
 		if x.Res.Err != nil {
 			x.Cnt.Inc("slash.callback_error")
+		}
+		for _, u := range ref.Unb {
+			if _, ok := prev.Assets[u.Denom]; !ok && u.V == x.Op.V {
+				x.Cnt.Inc("slash.with_pending_unbonding_of_deleted_asset")
+			}
 		}
 		// timing classes
 		for _, u := range ref.Unb {
@@ -279,6 +288,7 @@ func c07Step(x *engine.Exec) []engine.Failure {
 func c07Config() world.Config {
 	cfg := world.DefaultConfig()
 	cfg.Assets[0].TakeRate = "0"
+	cfg.ExtraDenoms = []string{"aaa", "bbb"}
 	return cfg
 }
 
@@ -310,6 +320,16 @@ func c07Ops(tier string) func(n *engine.Node) []world.Op {
 			ops = append(ops, world.Op{K: world.KUndelegate, D: 0, V: 0, Denom: "aaa", Amt: "7", Class: ClsUser})
 			ops = append(ops, world.Op{K: world.KRedelegateAll, D: 0, V: 0, V2: 1, Denom: "aaa", Class: ClsUser})
 		}
+		// governance can delete an asset whose stake is fully withdrawn while its unbondings are still pending
+		s := n.Snap()
+		for _, v := range []int{0, 1} {
+			if _, ok := s.FindPos(0, v, "bbb"); ok {
+				ops = append(ops, world.Op{K: world.KUndelegateAll, D: 0, V: v, Denom: "bbb", Class: ClsUser})
+			}
+		}
+		if a, ok := s.Assets["bbb"]; ok && a.TotalTokens.IsZero() {
+			ops = append(ops, world.Op{K: world.KGovDelete, Denom: "bbb", Class: ClsGov, Args: map[string]string{"signer": "authority"}})
+		}
 		for _, v := range []int{0, 1, 2} {
 			for _, f := range []string{"0.333333333333333333", "0.5", "1"} {
 				ops = append(ops, world.Op{K: world.KSlash, V: v, F: f, Class: ClsSlash})
@@ -337,13 +357,13 @@ func init() {
 					Expand: func(x *engine.Exec) bool {
 						return !x.Res.Rejected && !(x.Op.K == world.KSlash && x.Next.Used[ClsSlash] >= budgets[ClsSlash])
 					},
-					Required: []string{"slash.hit_pending_unbonding", "slash.hit_pending_redelegation", "redelegation.destination_checked", "redelegation.fan_in_same_block", "slash.at_completion_instant", "slash.after_completion_before_payout"},
+					Required: []string{"slash.hit_pending_unbonding", "slash.hit_pending_redelegation", "redelegation.destination_checked", "redelegation.fan_in_same_block", "slash.at_completion_instant", "slash.after_completion_before_payout", "slash.with_pending_unbonding_of_deleted_asset"},
 				}
 			}
 			if tier == "thorough" {
-				return []*engine.Scenario{mk("c07-packing", []int{4, 2, 0, 2, 0}, 8)}
+				return []*engine.Scenario{mk("c07-packing", []int{4, 2, 0, 2, 1}, 8)}
 			}
-			return []*engine.Scenario{mk("c07-packing", []int{3, 1, 0, 2, 0}, 6)}
+			return []*engine.Scenario{mk("c07-packing", []int{3, 1, 0, 2, 1}, 6)}
 		},
 		Assumptions: []string{
 			"seed: D0 staked on V0,V1,V2 (aaa) and V0,V1 (bbb), D1 on V0,V2 (aaa); take rate 0 so that share prices move only through slashes",
